@@ -23,7 +23,7 @@ META = {
             "snapshot, decoder table = builtin resolved through FieldTypes, model minLen/interpret = source switch tables for "
             "every FieldType x field length 0..20 incl. the over-long branch (interpretWide; the statements of wideUint / wideInt "
             "are pinned), the structured-data elements 291..293 resolve to Unknown (reported as their octets; they are "
-            "variable-length elements and decodable since fix 606ce73, C03 F23). "
+            "variable-length elements and decodable since fix 6666d44, C03 F23). "
             "Correspondence: real InfoModel before/after the real LoadExtElements, every key.",
     "ref": "DESIGN.md §6 C20",
     "note": "Trusted: Lean kernel; factgen translator (validated entry-by-entry against the real map by the correspondence); yaml library.",
